@@ -126,6 +126,12 @@ func sortedKeys(m map[string]bool) []string {
 	return out
 }
 
+func sortedJoin(joined string) string {
+	parts := strings.Split(joined, "; ")
+	sort.Strings(parts)
+	return strings.Join(parts, "; ")
+}
+
 func sortedKeysS(m map[string]string) []string {
 	out := make([]string, 0, len(m))
 	for k := range m {
@@ -265,7 +271,9 @@ func CompareTruth(v *View, t *model.Truth, o CheckOpts) (rule, sig, msg string) 
 			if o.TolPaths[path] {
 				continue
 			}
-			if v.SpecErrs[path] != v.Errs[path] {
+			// as sets of messages: the order of the entries of one file follows
+			// map iteration and may differ from one refresh to the next
+			if sortedJoin(v.SpecErrs[path]) != sortedJoin(v.Errs[path]) {
 				return "errors", "per-spec-report-differs", fmt.Sprintf("%s: GetSpecErrors(%s) = [%s] but GetErrors()[%s] = [%s]", o.Where, path, v.SpecErrs[path], path, v.Errs[path])
 			}
 		}
